@@ -811,6 +811,10 @@ R9_RULES = [
     ("R9n", "* $$e . iter_mut ( ) . find ( | $x | $$c ) . unwrap ( ) = $$v ;",
             "{ let r9_v = $$v; let mut r9_k: usize = 0; let mut r9_found = false; while r9_k < $$e.len() && !r9_found { let $x = &$$e[r9_k]; if $$c { r9_found = true; } else { r9_k = r9_k + 1; } } "
             "if !r9_found { vpanic(); } $$e[r9_k] = r9_v; }"),
+    ("R9o", "$$e . into_iter ( ) . fold ( $$i , | mut $acc , ( $a , $b , $c ) | {",
+            "({ let mut r9_q = $$e; let mut $acc = $$i; while r9_q.len() > 0 { let ($a, $b, $c) = vec_take_first(&mut r9_q); $acc = {", "} )", "}; } $acc })"),
+    ("R9p", "$$e . iter ( ) . for_each ( | $x | {",
+            "let mut r9_n: usize = 0; while r9_n < $$e.len() { let $x = &$$e[r9_n]; r9_n = r9_n + 1; {", "} )", "} }"),
     ("R9g", "$$e . iter ( ) . any ( | $x | $$c )",
             "({ let mut r9_any = false; let mut r9_k: usize = 0; while r9_k < $$e.len() && !r9_any { let $x = &$$e[r9_k]; if $$c { r9_any = true; } r9_k = r9_k + 1; } r9_any })"),
     ("R9i", "$$e . as_mut ( ) . and_then ( | $x | $x . pop_front ( ) )",
@@ -913,7 +917,7 @@ def apply_r9(text, rules_log):
                         continue
                     tail_end = sidx[cs + len(tail_pat) - 1] + 1
                     text = ("".join(t.text for t in toks[:head_start]) + new_head + "".join(t.text for t in toks[head_end:close_i])
-                            + rule[4] + "".join(t.text for t in toks[tail_end:]))
+                            + _subst(rule[4], binds) + "".join(t.text for t in toks[tail_end:]))
                 else:
                     text = "".join(t.text for t in toks[:head_start]) + new_head + "".join(t.text for t in toks[head_end:])
                 rules_log.append((name, norm("".join(t.text for t in toks[head_start:head_end]))[:160] + "  =>  " + norm(new_head)[:200]))
